@@ -17,6 +17,7 @@ from typing import Callable, Dict, FrozenSet, List, Optional, Set, Tuple
 from .cfg import Node
 from .defuse import Def, ReachingDefs, reaching_defs
 from .model import FunctionInfo
+from .flow import is_return_tail
 
 
 class _RD(ReachingDefs):
@@ -142,6 +143,32 @@ class Spec:
                 is_null = nulls.pop()
                 return is_null if isinstance(e.ops[0], ast.Is) else (not is_null)
             return None
+        if isinstance(e, ast.Compare) and len(e.ops) == 1 and isinstance(e.ops[0], (ast.Is, ast.IsNot)) and isinstance(e.left, ast.Name) \
+                and isinstance(e.comparators[0], ast.Name) and self.rd is not None:
+            # identity of two locals: the same single origin -> the same object; a freshly built object against something
+            # that existed before (a parameter) -> different objects
+            at = node or self.rd.node_of(e.left)
+            if at is not None:
+                a = self.sources(e.left, at)
+                b = self.sources(e.comparators[0], at)
+
+                def key(k, p):
+                    return ("param", p) if k == "param" else (("expr", id(p)) if k == "expr" else None)
+                ka, kb = {key(k, p) for k, p in a}, {key(k, p) for k, p in b}
+                same = None
+                if a and b and None not in ka and None not in kb:
+                    if len(ka) == 1 and ka == kb:
+                        same = True
+                    elif not (ka & kb):
+                        def fresh(srcs):
+                            return all(k == "expr" and isinstance(p, ast.Call) for k, p in srcs)
+
+                        def old(srcs):
+                            return all(k == "param" for k, p in srcs)
+                        if (fresh(a) and old(b)) or (fresh(b) and old(a)):
+                            same = False
+                if same is not None:
+                    return same if isinstance(e.ops[0], ast.Is) else (not same)
         if isinstance(e, ast.Name):
             # a local flag: decided when every definition that can reach here is decided the same way
             rd = self.rd or self._base_rd
@@ -286,7 +313,7 @@ class Spec:
     def falls_through(self) -> bool:
         """can control run off the end of the body (no return statement) under the assumption?"""
         for p in self.g.exit.pred:
-            if p in self.normal and p.kind != "return" and any(s is self.g.exit and self.edge_ok(p, s, l) for s, l in p.succ):
+            if p in self.normal and not is_return_tail(p) and any(s is self.g.exit and self.edge_ok(p, s, l) for s, l in p.succ):
                 return True
         return False
 
